@@ -254,7 +254,7 @@ def build_driver(name):
         return exe
 
 
-def build_harness(name, scratch):
+def build_harness(name, scratch, extra_overlay=None, tags=None):
     """Compile harness/<name>/ into /repo's current working tree through an overlay:
     *.go files become package main at <repo>/cmd/verif_<name>/; entries of overlay.json
     ({"<path relative to repo>": "<file in the harness dir>"}) are added to other packages."""
@@ -271,6 +271,8 @@ def build_harness(name, scratch):
             if rel.startswith("cmd/verif_" + name + "/"):
                 continue
             ov.pop(os.path.join(REPO, "cmd", "verif_" + name, os.path.basename(src)), None)
+    for k, v in (extra_overlay or {}).items():
+        ov[os.path.join(REPO, k)] = v
     ovp = os.path.join(scratch, "overlay-%s.json" % name)
     json.dump({"Replace": ov}, open(ovp, "w"))
     exe = os.path.join(scratch, "harness-%s" % name)
